@@ -375,6 +375,31 @@ func (r *run) step(st Step) bool {
 		if c.req != nil {
 			return false
 		}
+	case "Go":
+		// free schedule: serve whatever request the call has pending (nothing if it has none): a read as the model's
+		// Read, a write as Cas + Return, so that the unchanged code produces a conforming trace under any schedule and
+		// any other request pattern is still explored under the same interleavings (and judged by the monitor)
+		if !r.inFlight(c) || c.req == nil {
+			return !r.failed
+		}
+		switch {
+		case c.req.Op == fakeconsul.OpGet && c.req.Phase() == fakeconsul.Arrived:
+			r.step(Step{A: "Read", C: st.C})
+		case c.req.Op.IsWrite() && c.req.Phase() == fakeconsul.Arrived:
+			if r.step(Step{A: "Cas", C: st.C}) {
+				r.step(Step{A: "Return", C: st.C})
+			}
+		default:
+			q := c.req
+			if _, err := q.Reply(); err != nil {
+				r.harnessError("Go: " + err.Error())
+				return false
+			}
+			acted := r.reqDesc(q)
+			ret := r.settle(c)
+			r.emit("Extra", c, acted, ret...)
+		}
+		return !r.failed
 	case "ForeignWrite":
 		r.srv.Put(r.key, []byte(strconv.FormatUint(dec(st.V), 10)))
 		r.emit("ForeignWrite", nil, nil, "v", st.V)
